@@ -1693,6 +1693,93 @@ def run(ctx, anchors=None):
     ctx.extra["R15.23_left_to_callers"] = callers23
     ctx.floor("R15.23", n23, 2, "vector data() pointers handed to the mem* functions")
 
+    # ---- R15.24 a buffer sized by a counting pass holds what the writing pass stores: where a function walks the bytes of a string
+    # parameter twice - a switch that only counts (`escapes++`) feeding `malloc(len + count + 1)`, and a switch that stores through a
+    # moving pointer - every byte value is written with at most 1 + (what the first pass counted for it) bytes.
+    ctx.rule("R15.24", "per byte value, the writing pass stores no more bytes than the sizing pass counted (escape tables agree)")
+    n24 = 0
+    for f in sorted(fb.funcs.values(), key=lambda f_: f_.id):
+        if f.body is None or not auth(f) or (f.file, f.line, "R15.24") in done21:
+            continue
+        sws = []
+        for sw in S.find_switches(f):
+            c0 = sw["cond"]
+            while c0 is not None and c0.get("k") in ("cast", "paren"):
+                c0 = c0["e"]
+            if c0 is not None and c0.get("k") == "index" and c0["base"].get("k") in ("ref", "cast"):
+                b0 = c0["base"]
+                while b0.get("k") == "cast":
+                    b0 = b0["e"]
+                if b0.get("k") == "ref" and b0.get("dk") == "parm":
+                    sws.append((sw, b0["d"]))
+        if len(sws) < 2:
+            continue
+        done21.add((f.file, f.line, "R15.24"))
+
+        def stores_in(stmts):
+            k_ = 0
+            for st in stmts:
+                for x in walk(st):
+                    if x["k"] == "assign" and x["lhs"].get("k") == "un" and x["lhs"].get("op") == "*" and any(y["k"] == "un" and y.get("op") in ("++", "p++", "post++") for y in walk(x["lhs"])):
+                        k_ += 1
+                    elif x["k"] == "assign" and x["lhs"].get("k") == "index" and any(y["k"] == "un" and "++" in (y.get("op") or "") for y in walk(x["lhs"].get("idx") or x["lhs"])):
+                        k_ += 1
+            return k_
+
+        def incs_in(stmts):
+            out = {}
+            for st in stmts:
+                for x in walk(st):
+                    if x["k"] == "un" and "++" in (x.get("op") or "") and x["e"].get("k") == "ref" and x["e"].get("dk") == "local":
+                        out[x["e"]["n"]] = out.get(x["e"]["n"], 0) + 1
+                    elif x["k"] == "cassign" and x.get("op") == "+=" and x["lhs"].get("k") == "ref" and astq.const_value(x["rhs"]) is not None:
+                        out[x["lhs"]["n"]] = out.get(x["lhs"]["n"], 0) + astq.const_value(x["rhs"])
+            return out
+        for (swA, dA) in sws:
+            gA = [g_ for g_ in S.case_groups(swA) if g_.switch is swA]
+            if any(stores_in(g_.stmts) for g_ in gA):
+                continue
+            counters = set()
+            for g_ in gA:
+                counters |= set(incs_in(g_.stmts))
+            mallocs = [n for n in f.nodes() if n["k"] == "call" and n.get("n") in ("malloc", "realloc") and n.get("args") and any(c_ in astq.estr(n["args"][-1]) for c_ in counters)]
+            if len(counters) != 1 or not mallocs:
+                continue
+            cnt = list(counters)[0]
+            for (swB, dB) in sws:
+                if swB is swA or dB != dA:
+                    continue
+                gB = [g_ for g_ in S.case_groups(swB) if g_.switch is swB]
+                if not any(stores_in(g_.stmts) for g_ in gB):
+                    continue
+                n24 += 1
+                ctx.site()
+
+                def per_value(groups, fn):
+                    m, d = {}, None
+                    for g_ in groups:
+                        for (_nm, v, _n) in g_.labels:
+                            if v == "default":
+                                d = fn(g_.stmts)
+                            else:
+                                m[v] = fn(g_.stmts)
+                    return m, d
+                cA, dfA = per_value(gA, lambda st: incs_in(st).get(cnt, 0))
+                wB, dfB = per_value(gB, stores_in)
+                bad24 = []
+                for v in sorted(set(cA) | set(wB), key=str):
+                    counted = cA.get(v, dfA or 0)
+                    written = wB.get(v, dfB if dfB is not None else 0)
+                    if written > 1 + counted:
+                        bad24.append((v, written, 1 + counted))
+                if (dfB or 0) > 1 + (dfA or 0):
+                    bad24.append(("any other byte", dfB, 1 + (dfA or 0)))
+                ctx.inst(not bad24, "R15.24", "sizing-and-writing-agree@" + f.name, f.loc(swB),
+                         "for every byte value the writing switch of %s stores at most 1 + the %s counted by the sizing switch (%d labelled values)" % (f.name, cnt, len(set(cA) | set(wB))),
+                         "%s stores %s byte(s) for the byte value %s but its sizing pass reserved %s: the buffer from %s is overrun by one byte per such character (heap overflow)"
+                         % ((f.name, bad24[0][1], repr(chr(bad24[0][0])) if isinstance(bad24[0][0], int) and 0 <= bad24[0][0] < 128 else bad24[0][0], bad24[0][2], astq.estr(mallocs[0])[:40]) if bad24 else (f.name, "", "", "", "")))
+    ctx.floor("R15.24", n24, 1, "functions with a sizing pass and a writing pass over the same string")
+
     # ---------------------------------------------------------------- R15.9
     ev = fb.fn("Instance::eval", file="instance.cpp")
     opstep = fb.fn("StepScript", file="script/interpreter.cpp")
@@ -2004,6 +2091,8 @@ MUTANTS = [
     dict(name="urandom-stream-used-when-null", file="value.cpp", find="    if (!f) {\n        fprintf(stderr, \"unable to open /dev/urandom", replace="    if (!f && num > 64) {\n        fprintf(stderr, \"unable to open /dev/urandom", expect=["R15.22:stream-opened:\"/dev/urandom\"@GetRandBytes"]),
     dict(name="history-line-trimmed-unconditionally", file="kerl/kerl.c", find="      if (len > 0 && buf[len-1] == '\\n') buf[len-1] = 0;", replace="      buf[len-1] = 0;", expect=["R15.4:array=buf@kerl_set_history_file:index=(len - 1)"]),
     dict(name="string-bytes-copied-with-memcpy", file="value.h", find="            data.assign(str.begin(), str.end());\n", replace="            data.resize(str.length());\n            memcpy(data.data(), str.data(), str.length());\n", expect=["R15.23:non-null-pointer:data.data()@Value::data_value"]),
+    dict(name="escape-writes-uncounted-character", file="kerl/kerl.c", find="        case '\"': *(ptr++) = '\\\\'; *(ptr++) = '\"'; break;\n        default: *(ptr++) = input[i];", replace="        case '\"': *(ptr++) = '\\\\'; *(ptr++) = '\"'; break;\n        case '$': *(ptr++) = '\\\\'; *(ptr++) = '$'; break;\n        default: *(ptr++) = input[i];", expect=["R15.24:sizing-and-writing-agree@escape"]),
+    dict(name="escape-counts-one-character-less", file="kerl/kerl.c", find="case '\\n': case '\\t': case '\\r': case '\\b': case '\\\\': case '\"': escapes++;", replace="case '\\n': case '\\t': case '\\r': case '\\\\': case '\"': escapes++;", expect=["R15.24:sizing-and-writing-agree@escape"]),
     dict(name="token-sized-stack-array", file="instance.cpp", find="            if (std::to_string(n) == v) {", replace="            char nbuf[vlen + 1];\n            snprintf(nbuf, vlen + 1, \"%d\", n);\n            if (!strcmp(nbuf, v)) {", expect=["R15.18:vla:nbuf@Instance::eval"]),
     dict(name="hashtype-buffer-uninitialised", file="debugger/interpreter.h", find="    char buf[100] = \" \"; // the names are joined with blanks; the leading one is skipped below", replace="    char buf[100];", expect=["R15.19:buffer-written-before-read:buf@hashtype_str"]),
     dict(name="value-member-without-initialiser", file="value.h", find="    opcodetype opcode = OP_0;", replace="    opcodetype opcode;", expect=["R15.20:members-initialised:Value"]),
